@@ -424,7 +424,7 @@ func bCheckNodeDiff(t *testing.T, desc string, st *bStore, oldR, newR *Root, old
 	}
 	if rt, err := newR.LoadMast(bctx, bCfg(replica, nil)); err != nil {
 		bViolation(t, "C07", "replica-unloadable", "%s\nafter copying the added nodes to a replica of the old version, LoadMast fails: %v", ctx, err)
-	} else if msg := bCompare(rt, newM, 64); msg != "" {
+	} else if msg := bCompare(rt, newM, bMaxKey(newM)+1); msg != "" {
 		bViolation(t, "C07", "replica-unloadable", "%s\nafter copying the added nodes to a replica of the old version: %s", ctx, msg)
 	}
 	// cost (C15): distinct nodes read <= 2*D+2, D = nodes in exactly one version; 0 for the same version
@@ -541,4 +541,49 @@ func TestBounded_C07(t *testing.T) {
 
 func TestBounded_C15(t *testing.T) {
 	bStat("C15.version_pairs", bNodeDiffCases(t))
+	// tall trees (small branch factor, thousands of keys): one change deep in the tree
+	tall := 0
+	for _, bf := range []uint{2, 3} {
+		st := newBStore("mem://tall")
+		model := map[int]int{}
+		n := 3000
+		for k := 1; k <= n; k++ {
+			model[k] = k % 7
+		}
+		a, err := bBuild(bf, V115Binary, st, model, 0, false)
+		if err != nil {
+			continue
+		}
+		ra, err := a.MakeRoot(bctx)
+		if err != nil {
+			continue
+		}
+		for _, k := range []int{n / 2, n - 3, 2*n/3 + 1, 5} {
+			b, err := ra.LoadMast(bctx, bCfg(st, nil))
+			if err != nil {
+				continue
+			}
+			m2 := bCopyModel(model)
+			if msg := bApply(b, m2, bOp{false, k, 99}); msg != "" {
+				continue
+			}
+			rb, err := b.MakeRoot(bctx)
+			if err != nil {
+				continue
+			}
+			tall++
+			bCheckNodeDiff(t, fmt.Sprintf("tall tree bf=%d n=%d height=%d, value of key %d changed", bf, n, ra.Height, k), st, ra, rb, model, m2)
+		}
+	}
+	bStat("C15.tall_tree_pairs", tall)
+}
+
+func bMaxKey(m map[int]int) int {
+	mx := 63
+	for k := range m {
+		if k > mx {
+			mx = k
+		}
+	}
+	return mx
 }
